@@ -27,7 +27,7 @@ EXPLANATION = (
     "NOT decided: the greedy loop's invariant, the real-arithmetic part of the seeded-interval grid."
 )
 # obligations added during the build phase (seeding rounds, twins, mutation analysis)
-ADDED_IN_BUILD = ' Also: generator arguments bound by name (none left to a default); loop bounds with min / max and negated extrema are split into affine cases.'
+ADDED_IN_BUILD = ' Also: generator arguments bound by name (none left to a default); loop bounds with min / max and negated extrema are split into affine cases. zeroing (F-30) as in C07.'
 EXPLANATION = EXPLANATION + ADDED_IN_BUILD
 
 ASSUMPTIONS = [
